@@ -60,8 +60,8 @@ impl Scenario for C14 {
         vec!["public API only (ConfirmSmoother::process); the end-to-end path listener -> smoother is exercised by C13's scenario, not here".into()]
     }
     fn plan(&self, thorough: bool, seed: u64) -> Vec<CaseSpec> {
-        let mut v = plan_random("C14", "valid", seed, if thorough { 3_000_000 } else { 300_000 });
-        v.extend(plan_random("C14", "arbitrary", seed, if thorough { 1_000_000 } else { 100_000 }));
+        let mut v = plan_random("C14", "valid", seed, if thorough { 20_000_000 } else { 1_000_000 });
+        v.extend(plan_random("C14", "arbitrary", seed, if thorough { 6_000_000 } else { 300_000 }));
         v
     }
     fn real_vs_stub(&self) -> serde_json::Value {
